@@ -3,7 +3,7 @@
 // malformed input, EOF or an error closes only that connection; stop() frees
 // the port.
 //
-//   srv <keepalive 0/1> <data size> <stop after client k or -1>
+//   srv <keepalive 0/1> <data size> <stop after client k or -1> [<m>: call stop() as soon as client k has written m bytes, i.e. while its connection is open; -1 = when it is over]
 //   cli <c>                                   starts client c (0..3); they run one after the other
 //   req <c> <kind> <close 0/1> <a> <b>         kind 0 /hello 1 /data 2 /data range a..b 3 unknown 4 /redir 5 /stall
 //                                              6 malformed ("GARBAGE") 7 one-space request line
@@ -68,7 +68,7 @@ struct Run
 {
 	World* w = nullptr;
 	std::unique_ptr<sim::http_server> server;
-	bool keepalive = true; long long data_size = 1000; int stop_after = -1; bool stopped = false;
+	bool keepalive = true; long long data_size = 1000; int stop_after = -1; long long stop_mid = -1; bool stopped = false, stopped_mid = false;
 	std::vector<std::shared_ptr<Client>> clients;
 	std::size_t current = 0;
 	std::unique_ptr<sa::high_resolution_timer> idle, pacer, starter;
@@ -113,6 +113,8 @@ void client_write_next(Run& R, std::shared_ptr<Client> c)
 	sa::async_write(*c->s, sa::buffer(c->out.data() + c->sent, upto - c->sent), [&R, c, upto, end](boost::system::error_code const& e, std::size_t) {
 		if (e || c->done) return;
 		c->sent = upto; c->t_last = now_ns();
+		// stop() at an arbitrary moment of an open connection: the server stops listening, the connection is served on
+		if (R.stop_after == c->idx && R.stop_mid >= 0 && !R.stopped && c->sent >= std::size_t(R.stop_mid)) { R.stopped = true; R.stopped_mid = true; R.server->stop(); }
 		arm_idle(R, c);
 		if (upto < end) { finish_client(R, c); return; } // early close point reached
 		long long const gap = c->pieces[c->piece].second;
@@ -157,7 +159,7 @@ Verdict run_case(Case const& c, Ctx& ctx)
 	Topology topo; for (int i = 0; i < 3; ++i) topo.nodes.push_back(NodeSpec());
 	topo.net[{-1, -1}] = {QSpec{2000000, 3000, 0}};
 	std::unique_ptr<Run> rp(new Run()); Run& R = *rp;
-	if (auto r = c.first("srv")) { R.keepalive = r->at(0) != 0; R.data_size = std::max(0LL, std::min(20000LL, r->at(1, 1000))); R.stop_after = int(r->at(2, -1)); }
+	if (auto r = c.first("srv")) { R.keepalive = r->at(0) != 0; R.data_size = std::max(0LL, std::min(20000LL, r->at(1, 1000))); R.stop_after = int(r->at(2, -1)); R.stop_mid = r->at(3, -1); }
 	CliSpec specs[MAXCLI];
 	for (auto const& r : c.recs)
 	{
@@ -332,6 +334,7 @@ Verdict run_case(Case const& c, Ctx& ctx)
 	if (multi) ctx.label("several_requests_one_connection");
 	if (successor_after_closed) ctx.label("successor_client");
 	if (R.stopped) ctx.label("stop");
+	if (R.stopped_mid) ctx.label("stop_mid_connection");
 	if (!R.keepalive) ctx.label("keepalive_off");
 	for (auto& cl : R.clients) { if (cl->spec.early >= 0) ctx.label("early_client_close"); for (auto const& q : cl->spec.reqs) { if (q.kind >= 6) ctx.label("malformed"); if (q.kind == 5) ctx.label("stall"); if (q.kind == 2) ctx.label("range"); } }
 	v.nontrivial = (R.cut_in_header && multi) || successor_after_closed;
@@ -365,12 +368,12 @@ rc::Gen<Case> gen_case()
 				return v;
 			});
 	};
-	return rc::gen::map(rc::gen::tuple(kit::weighted({{3, 1}, {1, 0}}), kit::weighted({{1, 0}, {2, 100}, {2, 3000}, {1, 20000}}), kit::weighted({{5, -1}, {1, 0}, {1, 1}, {1, 2}}), client(0), client(1), client(2), client(3), kit::range(1, 4)),
-		[](std::tuple<long long, long long, long long, std::vector<Rec>, std::vector<Rec>, std::vector<Rec>, std::vector<Rec>, long long> t) {
+	return rc::gen::map(rc::gen::tuple(kit::weighted({{3, 1}, {1, 0}}), kit::weighted({{1, 0}, {2, 100}, {2, 3000}, {1, 20000}}), kit::weighted({{5, -1}, {2, 0}, {1, 1}, {1, 2}}), kit::weighted({{3, -1}, {1, 0}, {1, 30}, {1, 100}, {1, 250}}), client(0), client(1), client(2), client(3), kit::range(1, 4)),
+		[](std::tuple<long long, long long, long long, long long, std::vector<Rec>, std::vector<Rec>, std::vector<Rec>, std::vector<Rec>, long long> t) {
 			Case c;
-			c.recs.push_back(mk("srv", {std::get<0>(t), std::get<1>(t), std::get<2>(t)}));
-			std::vector<Rec> const* cl[4] = {&std::get<3>(t), &std::get<4>(t), &std::get<5>(t), &std::get<6>(t)};
-			for (long long i = 0; i < std::get<7>(t); ++i) for (auto const& r : *cl[i]) c.recs.push_back(r);
+			c.recs.push_back(mk("srv", {std::get<0>(t), std::get<1>(t), std::get<2>(t), std::get<3>(t)}));
+			std::vector<Rec> const* cl[4] = {&std::get<4>(t), &std::get<5>(t), &std::get<6>(t), &std::get<7>(t)};
+			for (long long i = 0; i < std::get<8>(t); ++i) for (auto const& r : *cl[i]) c.recs.push_back(r);
 			return c;
 		});
 }
